@@ -264,7 +264,8 @@ META = {
    technique='Coq theorems (only the save operation returns a changed filesystem, for every operation sequence; frame lemmas for write/unlink) + content+mtime snapshots of real trees around every operation',
    level_text='Proved in Coq for every sequence of loader operations: every filesystem state seen before the first save equals the initial one (verification, lookups, update, '
               'set_timestamp, reload never write, whether they succeed or fail: C10_no_save_no_write); writing or unlinking a path leaves every other regular file untouched '
-              '(C10_write_frame, C10_unlink_frame), and so does saving one Manifest, existing or new (C10_save_manifest_frame); a refreshed entry keeps its tag, path and aux name. PARTIAL: that the save loop calls these for Manifest paths only and the preservation of '
+              '(C10_write_frame, C10_unlink_frame), and so does saving one Manifest, existing or new (C10_save_manifest_frame); the whole save step (refresh, recompression, rename, unlink) changes only regular files that a '
+              'Manifest path of the loader - as is, with the format suffix appended or cut - named at the beginning (C10_save_writes_manifest_paths_only); a refreshed entry keeps its tag, path and aux name. PARTIAL: the preservation of '
               'DIST/IGNORE/TIMESTAMP and out-of-scope entries through the whole update are checked on generated trees (content+mtime listings, independent Manifest parser).',
    level_note='About Exec/Tree.v run_op over Model/Update.v; the model does not expose partially completed saves (a failing save is compared up to its error only).'),
  'C12': dict(engine='coq+tree', design_ref='DESIGN.md section 5 C12',
